@@ -5,7 +5,7 @@ from props import coregen as G, corecheck as K, variants as V
 PID = 'C08'
 PROFILE = dict(named_cols=0.4, partial_args=0.3, inclusion=0.25, assign=0.6, lists=0.2, records=0.2, combine=0.25,
                disjunction=0.3, filter=0.4, negation=0.2, two_rules=0.3, distinct=0.25, aggregation=0.25,
-               ifthenelse=0.4, builtins=0.3, func_calls=0.5, set_agg=0.0)
+               ifthenelse=0.4, builtins=0.3, func_calls=0.5, share_names=0.5, set_agg=0.0)
 
 
 def run(tier, replay=None):
@@ -21,6 +21,7 @@ def run(tier, replay=None):
   ok = ok and gen_ok
   variants = [
       ('plain', lambda prog, r: G.p_program(prog)),
+      ('caller_uses_callee_local_names', V.capture_bait),
       ('all_NoInject', lambda prog, r: V.annotate_all(prog, 'NoInject')),
       ('all_With', lambda prog, r: V.annotate_all(prog, 'With')),
       ('all_NoWith', lambda prog, r: V.annotate_all(prog, 'NoWith')),
